@@ -1,4 +1,109 @@
 package main
 
+import (
+	"encoding/json"
+	"fmt"
+	"os"
+	"path/filepath"
+	"regexp"
+	"sort"
+	"strings"
+	"sync"
+)
+
 func runC08(c *ctx, cfgNames []string) []procOut { return nil }
-func runC18(c *ctx, cfgNames []string) []procOut { return nil }
+
+// runC18 runs the -race builds with the detector's reports sent to log files, then turns every distinct
+// report into a violation (deduplicated by the pair of outermost library entry points).
+func runC18(c *ctx, cfgNames []string) []procOut {
+	outs := make([]procOut, len(cfgNames))
+	var wg sync.WaitGroup
+	for i, cn := range cfgNames {
+		wg.Add(1)
+		go func(i int, cn string) {
+			defer wg.Done()
+			logBase := filepath.Join(c.scratch, "out", "race-"+cn)
+			env := []string{"GORACE=halt_on_error=0 log_path=" + logBase + " history_size=4"}
+			po := c.runConfig(configs[cn], 8, nil, env, "")
+			files, _ := filepath.Glob(logBase + ".*")
+			type rep struct {
+				key, text string
+			}
+			var reps []rep
+			for _, f := range files {
+				b, err := os.ReadFile(f)
+				if err != nil {
+					continue
+				}
+				for _, block := range strings.Split(string(b), "==================") {
+					if !strings.Contains(block, "WARNING: DATA RACE") {
+						continue
+					}
+					reps = append(reps, rep{raceKey(block), block})
+				}
+			}
+			if po.res != nil {
+				if po.res.Observed == nil {
+					po.res.Observed = map[string]any{}
+				}
+				po.res.Observed["race_reports"] = len(reps)
+				seen := map[string]bool{}
+				var keys []string
+				for _, rp := range reps {
+					if seen[rp.key] {
+						continue
+					}
+					seen[rp.key] = true
+					keys = append(keys, rp.key)
+					txt := rp.text
+					if len(txt) > 4000 {
+						txt = txt[:4000]
+					}
+					raw, _ := json.Marshal(map[string]any{"report": txt, "case": map[string]any{"kind": "stress", "stream": "c18/stress/0", "clients": 8, "ops": 40}})
+					po.res.Violations = append(po.res.Violations, violation{Sig: "data-race/" + rp.key, What: fmt.Sprintf("race detector report (%d reports in this run): %s", len(reps), rp.key), Config: cn, Case: raw})
+					po.res.NViolations++
+				}
+				sort.Strings(keys)
+				po.res.Observed["race_report_classes"] = keys
+			} else if len(reps) > 0 {
+				// the process died but left reports
+				raw, _ := json.Marshal(map[string]any{"report": reps[0].text})
+				po.res = &result{Property: "C18", Config: cn, Complete: true, Evaluations: 1, Violations: []violation{{Sig: "data-race/" + reps[0].key, What: reps[0].key, Config: cn, Case: raw}}, NViolations: 1}
+			}
+			outs[i] = po
+		}(i, cn)
+	}
+	wg.Wait()
+	return outs
+}
+
+var frameRe = regexp.MustCompile(`(?m)^  (github\.com/oasisprotocol/curve25519-voi/[^\s(]+)\(`)
+
+// raceKey: the outermost library functions of the two stacks, line numbers stripped.
+func raceKey(block string) string {
+	parts := strings.Split(block, "\n\n")
+	var outer []string
+	for _, p := range parts {
+		if !(strings.Contains(p, "by goroutine") || strings.Contains(p, "by main goroutine")) || strings.Contains(p, "created at") {
+			continue
+		}
+		ms := frameRe.FindAllStringSubmatch(p, -1)
+		last := ""
+		for _, m := range ms {
+			if !strings.Contains(m[1], "/zzverif/") {
+				last = m[1]
+			}
+		}
+		if last != "" {
+			outer = append(outer, strings.TrimPrefix(last, "github.com/oasisprotocol/curve25519-voi/"))
+		}
+		if len(outer) == 2 {
+			break
+		}
+	}
+	sort.Strings(outer)
+	if len(outer) == 0 {
+		return "unattributed"
+	}
+	return strings.Join(outer, " <-> ")
+}
